@@ -127,7 +127,7 @@ func runC02(c *runCtx) {
 			if len(sql) > int(lim["MaxInputSize"]) && lim["MaxInputSize"] > 0 {
 				continue
 			}
-			for _, ep := range []string{"parse", "recovery", "parsectx"} {
+			for _, ep := range []string{"parse", "recovery", "parsectx", "parsetimeout", "validate"} {
 				if ep != "parse" && d > 1000 {
 					continue
 				}
